@@ -49,8 +49,17 @@ func escape(b *bytes.Buffer, r rune, force bool) {
 			b.WriteString(s)
 			break
 		}
+		if r > 0xFFFF {
+			// no fixed-width escape reaches beyond the BMP (and \x{...} / \u{...} are
+			// option dependent); such runes are never special, keep them as they are
+			b.WriteRune(r)
+			break
+		}
 		b.WriteString(`\u`)
-		b.WriteString(strconv.FormatInt(int64(r), 16))
+		s := strconv.FormatInt(int64(r), 16)
+		// \u takes exactly four hex digits
+		b.WriteString("0000"[len(s):])
+		b.WriteString(s)
 	}
 }
 
